@@ -226,7 +226,9 @@ def run_c(variant, kind, lines, args=(), shards=NPROC, timeout=1800):
 
 
 def run_model(kind, lines, args=(), shards=NPROC, timeout=1800):
-    return _run_sharded([os.path.join(BUILD, "jlsmodel"), kind] + list(args), lines, shards, timeout)
+    # the extracted list functions are not tail recursive: run with an unlimited stack
+    cmd = ["bash", "-c", 'ulimit -s unlimited 2>/dev/null; exec "$0" "$@"', os.path.join(BUILD, "jlsmodel"), kind] + list(args)
+    return _run_sharded(cmd, lines, shards, timeout)
 
 
 def proof_violation_if_broken(ctx):
@@ -247,8 +249,8 @@ def finish(ctx, level, checker_cmd, trusted_extra=(), note=""):
     ctx.cov["distinct_nontrivial"] = len(ctx.distinct)
     nob = len(ctx.obligations)
     ndis = len([o for o in ctx.obligations if o["ok"]])
-    if level == "proof" and nob == 0:
-        level = "exploration"       # no theorem file for this property yet: the run is differential/oracle testing only
+    # one rule, shared with tools/manifest.py: a check is at proof level iff it has property theorems
+    level = "proof" if nob > 0 else "exploration"
     cov = dict(ctx.cov)
     cov.update({
         "obligations": nob, "discharged": ndis, "checker_cmd": checker_cmd,
@@ -268,7 +270,11 @@ def finish(ctx, level, checker_cmd, trusted_extra=(), note=""):
         "wall_s": round(time.time() - ctx.t0, 2),
         "violations": len(ctx.violations),
     }
-    with open(os.path.join(VERIF, "evidence", ctx.prop + ".json"), "w") as f:
+    evdir = os.path.join(VERIF, "evidence")
+    if os.environ.get("JLS_REPO") and os.environ.get("JLS_REPO") != "/repo":
+        evdir = os.path.join(BUILD, "evidence")        # runs against a scratch copy never touch the committed evidence
+        os.makedirs(evdir, exist_ok=True)
+    with open(os.path.join(evdir, ctx.prop + ".json"), "w") as f:
         json.dump(ev, f, indent=1, default=str)
     for k in ctx.known_hits:
         print("KNOWN-FINDING: property=%s %s" % (ctx.prop, k["what"]))
